@@ -646,10 +646,100 @@ impl SubCheckT for SemBuilder {
 #[allow(dead_code)]
 fn _unused(_: SddPtr) {}
 
+// ---------------------------------------------------------------------------
+// tens of thousands of applications on one hash-identified SDD builder (64-bit field)
+// ---------------------------------------------------------------------------
+
+#[derive(Clone, Debug, Serialize, Deserialize)]
+pub struct ManyAppsCase {
+    pub nv: u8,
+    pub seed: u64,
+    pub ops: u32,
+    /// even: right-linear, odd: balanced vtree (left-linear vtrees are out of budget, see C16's large-cache sub-check)
+    pub vt_kind: u8,
+}
+
+pub struct SemManyApps;
+
+pub fn run_many_apps(case: &ManyAppsCase, st: &mut Stats) -> CaseResult {
+    use rsdd::repr::VTree;
+    const P: u128 = primes::U64_LARGEST;
+    let n = (case.nv as usize).clamp(8, 12);
+    fn shape(labels: &[usize], kind: u8) -> VTree {
+        if labels.len() == 1 {
+            return VTree::new_leaf(VarLabel::new_usize(labels[0]));
+        }
+        let at = if kind % 2 == 0 { 1 } else { labels.len() / 2 };
+        VTree::new_node(Box::new(shape(&labels[..at], kind)), Box::new(shape(&labels[at..], kind)))
+    }
+    let labels = crate::big::permutation(case.seed ^ 0x5E4, n);
+    let b = SemanticSddBuilder::<P>::new(shape(&labels, case.vt_kind));
+    let mut pool: Vec<SddPtr> = (0..n).flat_map(|v| [b.var(VarLabel::new_usize(v), true), b.var(VarLabel::new_usize(v), false)]).collect();
+    let probes: Vec<Vec<bool>> = (0..6u64).map(|k| crate::big::assignment(case.seed ^ 0x9E0B, k, n)).collect();
+    // values of every pool entry on the probes, kept by the harness (an entry's values are checked when it is made)
+    let mut vals: Vec<u8> = pool.iter().map(|p| probes.iter().enumerate().fold(0u8, |m, (i, a)| if crate::big::sdd_eval(*p, a) { m | 1 << i } else { m })).collect();
+    let mask = (1u8 << probes.len()) - 1;
+    let pick = |k: u64, len: usize| -> usize {
+        let r = splitmix(case.seed ^ k);
+        if r % 4 != 0 && len > 64 {
+            len - 1 - (r >> 8) as usize % 64
+        } else {
+            (r >> 8) as usize % len
+        }
+    };
+    for i in 0..case.ops as u64 {
+        let (x, y) = (pick(i * 3, pool.len()), pick(i * 3 + 1, pool.len()));
+        let (kind, r, want) = match splitmix(case.seed ^ (i * 3 + 2)) % 5 {
+            0 | 1 => ("and", b.and(pool[x], pool[y]), vals[x] & vals[y]),
+            2 | 3 => ("or", b.or(pool[x], pool[y]), vals[x] | vals[y]),
+            _ => ("and-with-negation", b.and(b.negate(pool[x]), pool[y]), !vals[x] & mask & vals[y]),
+        };
+        let got = probes.iter().enumerate().fold(0u8, |m, (j, a)| if crate::big::sdd_eval(r, a) { m | 1 << j } else { m });
+        ensure!(
+            got == want,
+            format!("C11/semantic-builder-wrong-function:{}", kind),
+            "application #{} ({}) on a SemanticSddBuilder over GF(2^64-59) with {} variables: the result's values on six assignments are {:06b}, the operands' give {:06b}",
+            i,
+            kind,
+            n,
+            got,
+            want
+        );
+        if !r.is_const() && pool.len() < 4000 {
+            pool.push(r);
+            vals.push(got);
+        } else if !r.is_const() {
+            let at = 2 * n + (splitmix(case.seed ^ 0xD1CE ^ i) as usize) % (pool.len() - 2 * n);
+            pool[at] = r;
+            vals[at] = got;
+        }
+    }
+    st.add("many_apps.applications", case.ops as u64);
+    if case.ops >= 20_000 {
+        st.mark_nontrivial();
+    }
+    Ok(())
+}
+
+impl SubCheckT for SemManyApps {
+    type Case = ManyAppsCase;
+    const NAME: &'static str = "semantic_sdd_many_applications";
+    const RULE: &'static str = "one SemanticSddBuilder over GF(2^64-59) (8..12 variables, right-linear or balanced vtree over a random leaf order) issues 20 000..60 000 and / or applications on a pool of up to 4000 diagrams; every result is read by the harness's walk on six assignments and must equal the operation applied to the operands' values there (caches of that builder that go wrong only when they hold tens of thousands of entries show here). Non-trivial: at least 20 000 applications";
+    fn cases(tier: Tier) -> u32 {
+        tier.pick(4, 64)
+    }
+    fn strategy(_tier: Tier) -> BoxedStrategy<ManyAppsCase> {
+        (8u8..=12, any::<u64>(), 20_000u32..=60_000, 0u8..2).prop_map(|(nv, seed, ops, vt_kind)| ManyAppsCase { nv, seed, ops, vt_kind }).boxed()
+    }
+    fn run(case: &ManyAppsCase, st: &mut Stats) -> CaseResult {
+        run_many_apps(case, st)
+    }
+}
+
 pub fn property() -> Property {
     Property {
         id: "C11",
-        subs: vec![sub::<Hash>(), sub::<SemBuilder>()],
+        subs: vec![sub::<Hash>(), sub::<SemBuilder>(), sub::<SemManyApps>()],
         fuzz: vec![],
         assumptions: vec![
             "a collision of two different functions in the 64-bit field (probability about 2^-64 per pair) is treated as impossible",
